@@ -79,14 +79,39 @@ def _restore(ex, st, args, n):
     return None
 
 
+@R.model('PyUnicode_FromFormat', "a new str, or NULL with an exception (the arguments' __repr__ may run: arbitrary code)")
+def _fromformat(ex, st, args, n):
+    ex.callee_havoc(st, 'fromformat', args)
+    r = ex.fresh('formatted', B64)
+    e = ex.fresh('err_format', B64)
+    st.assume(z3.Implies(r == 0, e != 0))
+    st.err = z3.If(r == 0, e, st.err)
+    return r
+
+
+for _nm in ('_PyErr_WriteUnraisableMsg', 'PyErr_WriteUnraisable', 'PyErr_FormatUnraisable'):
+    def _unraisable(ex, st, args, n, _nm=_nm):
+        # prints the pending exception through sys.unraisablehook: arbitrary Python code; whatever is pending afterwards
+        ex.callee_havoc(st, 'unraisable', args)
+        st.err = ex.fresh('err_after_unraisable', B64)
+        return None
+    R.models[_nm] = _unraisable
+    R.assumed[_nm] = "prints the pending exception (sys.unraisablehook: arbitrary code runs); any error state afterwards"
+R.models['PyUnicode_AsUTF8'] = lambda ex, st, args, n: ex.fresh('utf8', B64)
+R.assumed['PyUnicode_AsUTF8'] = "some C string (contents not modelled)"
+
+
 @R.add
 class _my_PyErr_WriteUnraisable(Contract):
-    """prints the exception it is handed ("From callback for ffi.gc ...") -- assumed: leaves no exception pending"""
+    """prints the exception it is handed ("From callback for ffi.gc ..."): whatever happens while printing, no exception
+    is left pending"""
     name = '_my_PyErr_WriteUnraisable'
-    trusted = True
+
+    def pre(self, c):
+        return [('objdescr-valid', c.valid(c['objdescr'], 2))]
 
     def frame(self, c):
-        return Frame(err=True, trace=[])
+        return Frame(all_raw=True, all_fields=True, err=True, trace=[])
 
     def post(self, c):
         return [('no exception is left pending', c.new.err == 0)]
@@ -758,6 +783,6 @@ def flow_obligations(tu):
                % ', '.join(sorted(got)), [], z3.BoolVal(got == want), kind='flow')
 
 
-C21_FUNCS = ['allocate_gcp_object', 'cdatagcp_finalize', 'cdatagcp_dealloc', 'explicit_release_case', 'cdata_exit',
+C21_FUNCS = ['_my_PyErr_WriteUnraisable', 'allocate_gcp_object', 'cdatagcp_finalize', 'cdatagcp_dealloc', 'explicit_release_case', 'cdata_exit',
              'cdatafrombuf_dealloc', 'cdatafrombuf_clear', 'cdata_enter', 'b_gcp', 'allocate_with_allocator#custom',
              'cdataowning_subscript#owned', '_my_PyObject_GetContiguousBuffer', 'direct_from_buffer', 'newp_handle', 'b_from_handle']
